@@ -130,9 +130,9 @@ NumEQ(a, b) == a = b               \* canonical projection: one spelling per num
 IsInfN(n)   == Has(n, "inf")
 IsWholeN(n) == IF Has(n, "q") THEN n.q % 4 = 0
                ELSE IF Has(n, "d") THEN n.d = 1
-               ELSE IF Has(n, "lm") THEN Landmarks[n.lm].whole ELSE FALSE
+               ELSE IF Has(n, "lm") THEN Landmarks[n.lm].whole ELSE Has(n, "w")
 IsF64N(n)   == IF Has(n, "q") \/ Has(n, "d") THEN TRUE
-               ELSE IF Has(n, "lm") THEN Landmarks[n.lm].f64 ELSE Has(n, "inf")
+               ELSE IF Has(n, "lm") THEN Landmarks[n.lm].f64 ELSE (Has(n, "inf") \/ Has(n, "f"))
 SignN(n)    == IF IsSmallN(n) THEN (IF Nm(n) > 0 THEN 1 ELSE IF Nm(n) < 0 THEN -1 ELSE 0)
                ELSE IF Coarse(n) > 0 THEN 1 ELSE -1
 
